@@ -147,10 +147,19 @@ def run_case(col, case, sub):
     names = [n for n in NAMES if not allowed or n in allowed]
 
     log = {n: [] for n in NAMES}
+    done = [False]          # reading is over: property faults switched off
     finished = {n: 0 for n in NAMES}
     injected = {}
 
     originals = dict(F.ALL_FORMATS)
+
+    # pplan: faults inside an inspector's *properties* (complete /
+    # format_match raise once chunk k has been eaten).  Only for inspectors
+    # other than the expected one: nothing of it may reach the reader.
+    pplan = {k: tuple(v) for k, v in (case.get('pplan') or {}).items()}
+    if expected in pplan:
+        raise core.HarnessError('property faults are for non-expected '
+                                'inspectors')
 
     def make(name, orig):
         def eat_chunk(self, chunk):
@@ -163,11 +172,22 @@ def run_case(col, case, sub):
                 raise exc
             return orig.eat_chunk(self, chunk)
 
+        def faulty(prop):
+            def get(self):
+                pp = pplan.get(name)
+                if pp is not None and pp[2] == prop and \
+                        len(log[name]) > pp[0] and not done[0]:
+                    raise _make_exc(pp[1], F)
+                return getattr(orig, prop).fget(self)
+            return property(get)
+
         def finish(self):
             finished[name] += 1
             return orig.finish(self)
-        return type('Rec_' + name, (orig,), {'eat_chunk': eat_chunk,
-                                             'finish': finish})
+        attrs = {'eat_chunk': eat_chunk, 'finish': finish}
+        if name in pplan:
+            attrs[pplan[name][2]] = faulty(pplan[name][2])
+        return type('Rec_' + name, (orig,), attrs)
 
     def bad(msg):
         raise Violation(sub, msg, case)
@@ -231,8 +251,11 @@ def run_case(col, case, sub):
                                 if mutable else chunks)
         if mutable and mode != 'iter':
             src = _MutableReads(src)
-        w = F.InspectWrapper(src, expected_format=expected,
-                             allowed_formats=allowed)
+        # selector strings are equal copies, never the interned literals
+        w = F.InspectWrapper(
+            src, expected_format=core.fresh(expected),
+            allowed_formats=None if allowed is None
+            else [core.fresh(a) for a in allowed])
         got = []
         raised = None
         for k in range(len(chunks)):
@@ -258,6 +281,7 @@ def run_case(col, case, sub):
                     'source\'s chunk (%d bytes)' % (k, len(c),
                                                     len(chunks[k])))
         consumed = src.tell() if mode in ('read', 'short') else src.pulled
+        done[0] = True
         try:
             w.close()
         except Exception as e:
@@ -327,6 +351,10 @@ def run_case(col, case, sub):
                 bad('inspector %s call %d received bytes that are not the '
                     'source\'s chunk %d' % (n, i, i))
         ncalls = len(calls)
+        if n in pplan:
+            # the inspector's own code may consult the faulty property and
+            # get retired at any chunk (in-order feeding was checked above)
+            continue
         if stop[n] is not None and stop[n] <= last:
             ok = [stop[n] + 1]
             if abort is not None and stop[n] == abort[0] and n != expected:
@@ -353,9 +381,11 @@ def run_case(col, case, sub):
                   (expected in plan) or bool(real_err))
     col.case(sub, (core.h64(data), case['schedule'], mode,
                    tuple(sorted(plan.items())), expected,
-                   tuple(allowed) if allowed else None, case.get('ckind')),
+                   tuple(allowed) if allowed else None, case.get('ckind'),
+                   tuple(sorted(pplan.items()))),
              nontrivial,
              ['mode=' + mode, 'faults=%d' % min(len(plan), 3),
+              'property-faults=%d' % len(pplan),
               'chunks=' + (case.get('ckind') or 'bytes'),
               'loglevel=' + str(case.get('loglevel')),
               'expected=' + ('none' if not expected else 'set'),
@@ -425,6 +455,17 @@ def single_faults(col, source_idx, mode):
                 for kind in kinds:
                     run_case(col, {'content': content, 'schedule': sched,
                                    'mode': mode, 'plan': {name: [k, kind]},
+                                   'expected': expected, 'allowed': None,
+                                   'loglevel': lvl}, sub)
+    # faults inside the properties of inspectors other than the expected one
+    for name in NAMES:
+        for prop in ('complete', 'format_match'):
+            for k in (0, 1):
+                for expected in (None, 'raw' if name != 'raw' else 'qcow2',
+                                 'vmdk' if name != 'vmdk' else 'vhd'):
+                    run_case(col, {'content': content, 'schedule': sched,
+                                   'mode': mode, 'plan': {},
+                                   'pplan': {name: [k, 'RuntimeError', prop]},
                                    'expected': expected, 'allowed': None,
                                    'loglevel': lvl}, sub)
     col.exhaustive.setdefault(sub, True)
